@@ -39,6 +39,27 @@ pub fn dispatch(op: &str, ty: &str, args: &[Arg]) -> Option<String> {
             let prec = match p { Arg::N => None, Arg::Z(z) => Some(*z as usize), _ => return Some("bad".into()) };
             match ty { "f64" => disp::<f64>(&sh, &es, prec, *alt == 1), "f32" => disp::<f32>(&sh, &es, prec, *alt == 1), _ => None }
         }
+        ("m_single_compound", [a]) => {
+            // array_single! with a pair / triple / list element type must agree with Array::single of that value
+            let (_, es) = strs(a)?;
+            let same = |x: String, y: String| if x == y { "z(1)".to_string() } else { format!("!macro({x} vs function {y})") };
+            let show = |t: String| format!("s({})", hex(t.as_bytes()));
+            return Some(match (ty, es.len()) {
+                ("str", 2) => { let (p, q) = (es[0].clone(), es[1].clone());
+                    same(show(format!("{:?}", array_single!(Tuple2<String, String>, (p, q)))), show(format!("{:?}", Array::single(Tuple2(es[0].clone(), es[1].clone()))))) }
+                ("str", 3) => { let (p, q, r) = (es[0].clone(), es[1].clone(), es[2].clone());
+                    same(show(format!("{:?}", array_single!(Tuple3<String, String, String>, (p, q, r)))), show(format!("{:?}", Array::single(Tuple3(es[0].clone(), es[1].clone(), es[2].clone()))))) }
+                ("list", 1) => same(show(format!("{:?}", array_single!(List<String>, vec![es[0].clone()]))), show(format!("{:?}", Array::single(List(es.clone()))))),
+                ("list", 2) => same(show(format!("{:?}", array_single!(List<String>, vec![es[0].clone(), es[1].clone()]))), show(format!("{:?}", Array::single(List(es.clone()))))),
+                ("list", 3) => same(show(format!("{:?}", array_single!(List<String>, vec![es[0].clone(), es[1].clone(), es[2].clone()]))), show(format!("{:?}", Array::single(List(es.clone()))))),
+                ("char", 2) => { let (c, n) = (es[0].chars().next()?, es[1].len() as i32);
+                    same(show(format!("{:?}", array_single!(Tuple2<char, i32>, (c, n)))), show(format!("{:?}", Array::single(Tuple2(c, n))))) }
+                ("charlist", k) if k >= 1 && k <= 3 => { let cs: Vec<char> = es.iter().filter_map(|s| s.chars().next()).collect(); if cs.len() != k { return Some("bad".into()); }
+                    let m = match k { 1 => array_single!(List<char>, vec![cs[0]]), 2 => array_single!(List<char>, vec![cs[0], cs[1]]), _ => array_single!(List<char>, vec![cs[0], cs[1], cs[2]]) };
+                    same(show(format!("{:?}", m)), show(format!("{:?}", Array::single(List(cs.clone()))))) }
+                _ => "bad".to_string(),
+            });
+        }
         ("tuple_text", [a]) => {
             let (_, es) = strs(a)?;
             let (text, back): (String, Vec<String>) = match es.len() {
